@@ -3,6 +3,7 @@
 #![allow(clippy::too_many_arguments)]
 #![allow(clippy::type_complexity)]
 pub mod blasshim;
+pub mod dual;
 pub mod engine;
 pub mod gen;
 pub mod oracle;
